@@ -10,6 +10,7 @@
      rows <id> <statement index> <code> <fp:value:timestamp_ms>...
      down <id> <verdict code> <number of rows the down-sampled statement yields>
      re   <id> <parse valid 0/1> <per value: s = RE2 search, p = Prometheus anchored match, as 0/1 pairs "sp">...
+     gap  <id> <per pattern: parse valid 0/1>   (input line: patterns outside the oracle table of the sem/psem/down line that follows)
    Atoms: decimal integers (any size), t / f, none, constructor names, strings as h<hex bytes>. *)
 open Promsel
 
@@ -157,8 +158,27 @@ let rec re_of = function
   | L [A "RGrp"; a] -> RGrp (re_of a) | L [A "RCap"; a] -> RCap (re_of a)
   | _ -> fail_sx "re"
 
+(* match() patterns of an implementation statement that the case's Go-made oracle table does not hold (a changed wrapper
+   text, ..): for patterns of the fragment of model/PromRegex.v the answers are COMPUTED by the model (re_search) on the
+   strings of the case's database and added to the table of the sem / psem / down line of the same id that follows *)
+let gaps : (int, ((char list * char list) * bool) list) Hashtbl.t = Hashtbl.create 16
+let gap_of id = match Hashtbl.find_opt gaps (int_of id) with Some l -> l | None -> []
+
 let handle (x : sx) : unit =
   match x with
+  | L [A "gap"; id; pats; vals] ->
+    let vs = list_of str_of vals in
+    Printf.printf "gap %d" (int_of id);
+    let entries = List.concat (list_of (function
+      | L [p; ast] ->
+        let r = re_of ast in
+        let pt = str_of p in
+        let ok = re_case_ok r pt in
+        Printf.printf " %s" (b01 ok);
+        if ok then List.map2 (fun v (s, _) -> ((pt, v), s)) vs (re_case_answers r vs) else []
+      | _ -> fail_sx "gap pattern") pats) in
+    Hashtbl.replace gaps (int_of id) entries;
+    print_newline ()
   | L [A "re"; id; ast; text; vals] ->
     let r = re_of ast in
     Printf.printf "re %d %s" (int_of id) (b01 (re_case_ok r (str_of text)));
@@ -184,20 +204,20 @@ let handle (x : sx) : unit =
     Printf.printf "sel %d %s %s %s\n" (int_of id) (b01 (scase_mismatch sc)) (b01 (scase_spec_violation sc)) (b01 (scase_dup_violation sc))
   | L [A "sem"; id; cluster; h; ms; db; tree; text; search; full] ->
     let se = { se_id = z_of id; se_cluster = bool_of cluster; se_hints = hints_of h; se_ms = list_of matcher_of ms; se_db = db_of db;
-               se_impl = select_of tree; se_text = str_of text; se_search = tbl_of search; se_full = tbl_of full } in
+               se_impl = select_of tree; se_text = str_of text; se_search = tbl_of search @ gap_of id; se_full = tbl_of full } in
     Printf.printf "sem %d %d\n" (int_of id) (int_of_z (sem_verdict se))
   | L [A "psem"; id; cluster; table; from; to_; sels; series; tree; text; search; full] ->
     let pe = { pe_id = z_of id; pe_cluster = bool_of cluster; pe_table = str_of table; pe_from_ns = z_of from; pe_to_ns = z_of to_;
                pe_sels = list_of selector_of sels; pe_series = list_of pstored_of series; pe_impl = select_of tree;
-               pe_text = str_of text; pe_search = tbl_of search; pe_full = tbl_of full } in
+               pe_text = str_of text; pe_search = tbl_of search @ gap_of id; pe_full = tbl_of full } in
     Printf.printf "psem %d %d\n" (int_of id) (int_of_z (psem_verdict pe))
   | L [A "down"; id; cluster; h; ms; db; tree; text; search; full] ->
     let dc = { dn_id = z_of id; dn_cluster = bool_of cluster; dn_hints = hints_of h; dn_ms = list_of matcher_of ms; dn_db = db_of db;
-               dn_impl = select_of tree; dn_text = str_of text; dn_search = tbl_of search; dn_full = tbl_of full } in
+               dn_impl = select_of tree; dn_text = str_of text; dn_search = tbl_of search @ gap_of id; dn_full = tbl_of full } in
     let (code, rows) = down_verdict dc in
     Printf.printf "down %d %d %d\n" (int_of id) (int_of_z code) (List.length rows)
   | L [A "rows"; id; idx; db; tree; text; search] ->
-    let (code, rows) = engine_rows (select_of tree) (str_of text) (db_of db) (tbl_of search) in
+    let (code, rows) = engine_rows (select_of tree) (str_of text) (db_of db) (tbl_of search @ gap_of id) in
     Printf.printf "rows %d %d %d" (int_of id) (int_of idx) (int_of_z code);
     List.iter (fun r -> Printf.printf " %s:%d:%d" (dec_of_n r.r_fp) (int_of_z r.r_val) (int_of_z r.r_ts)) rows;
     print_newline ()
